@@ -33,7 +33,18 @@ Definition changed (w : world) : Prop := w_last w < last_index (w_db w).
 Definition already_there (w : world) (e : env) : Prop :=
   w_last w = 0 /\ e_id_err e = false /\ w_rid w = Some (last_index (w_db w)).
 
-Definition provider_ok (e : env) : Prop := e_li_err e = false /\ e_prov_err e = false.
+(* Provide's retry loop runs out of attempts: the first `fuel` attempts all fail *)
+Definition attempt_ok (a : attempt) : bool := match a with AOk | ABenign => true | AGate | AFail => false end.
+Fixpoint gives_up (fuel : nat) (atts : list attempt) : bool :=
+  match fuel with
+  | O => true
+  | S f => match atts with [] => false | a :: r => if attempt_ok a then false else gives_up f r end
+  end.
+
+(* the provider answers: LastIndex works, Provide is not failing outright and one of its (at
+   most 11) attempts goes through - gate conflicts and write errors before that are allowed *)
+Definition provider_ok (e : env) : Prop :=
+  e_li_err e = false /\ e_prov_err e = false /\ gives_up 11 (e_attempts e) = false.
 
 (* ---- lists ---- *)
 
@@ -80,10 +91,50 @@ Proof. intros H. rewrite last_index_app. apply incr_last. exact H. Qed.
 Lemma in_db_le db c : incr 0 db -> In c db -> c <= last_index db.
 Proof. intros H Hin. destruct (incr_in db 0 c H Hin). exact H1. Qed.
 
+(* ---- Provide ---- *)
+
+Lemma provide_spec fuel db : forall atts n,
+  fst (provide fuel db atts n) = if gives_up fuel atts then None else Some db.
+Proof.
+  induction fuel as [|f IH]; intros atts n; [reflexivity|].
+  destruct atts as [|a r]; [reflexivity|].
+  cbn [provide gives_up]. destruct a; cbn [backup_copy attempt_ok fst]; try reflexivity; apply IH.
+Qed.
+
+Lemma provided_some db e d : provided db e = Some d -> d = db.
+Proof.
+  unfold provided. destruct (e_prov_err e); [discriminate|].
+  rewrite provide_spec. destruct (gives_up 11 (e_attempts e)); [discriminate|]. intros H; inversion H; reflexivity.
+Qed.
+
+Lemma provided_ok db e : provider_ok e -> provided db e = Some db.
+Proof.
+  intros (_ & Hpr & Hgu). unfold provided. rewrite Hpr, provide_spec, Hgu. reflexivity.
+Qed.
+
+(* a gate conflict never yields data: the attempt fails, whatever the database *)
+Lemma gate_conflict_copies_nothing db : backup_copy db AGate = None.
+Proof. reflexivity. Qed.
+
+(* attempts: k failing attempts (k <= 10) followed by a good one make k+1 attempts *)
+Lemma provide_attempts db : forall k fuel n, (k < fuel)%nat ->
+  provide fuel db (repeat AGate k) n = (Some db, n + N.of_nat k + 1).
+Proof.
+  induction k as [|k IH]; intros fuel n Hk.
+  - destruct fuel; [lia|]. cbn. f_equal. lia.
+  - destruct fuel; [lia|]. cbn [repeat provide backup_copy]. rewrite IH by lia. f_equal. lia.
+Qed.
+
+Lemma provide_retries_past_gate db k :
+  backup_copy db AGate = None /\
+  ((k < 11)%nat -> provide 11 db (repeat AGate k) 0 = (Some db, 0 + N.of_nat k + 1)).
+Proof. split; [reflexivity|apply provide_attempts]. Qed.
+
 (* ---- one round ---- *)
 
 Ltac brk :=
   repeat match goal with
+         | |- context [match provided ?a ?b with _ => _ end] => destruct (provided a b) eqn:?
          | |- context [if ?b then _ else _] => destruct b eqn:?
          end.
 
@@ -98,9 +149,10 @@ Lemma uploads_when_changed w e :
     (forall c, In c (w_db w') -> In c data) /\
     (e_up_fail e = false -> w_last w' = li /\ w_rid w' = Some li /\ w_rdata w' = data).
 Proof.
-  intros (Hli & Hpr) Hch Hna. unfold changed in Hch. cbv zeta.
+  intros Hok Hch Hna. pose proof (fun db => provided_ok db e Hok) as HP. destruct Hok as (Hli & Hpr & Hgu).
+  unfold changed in Hch. cbv zeta.
   exists (w_db w ++ e_mid e).
-  unfold round. rewrite Hli, Hpr.
+  unfold round. rewrite Hli, HP.
   destruct (last_index (w_db w) <=? w_last w) eqn:Hle; [apply N.leb_le in Hle; lia|].
   cbn [set_db w_db w_last w_rid].
   destruct ((w_last w =? 0) && negb (e_id_err e) && opt_N_eqb (w_rid w) (last_index (w_db w))) eqn:Hid.
@@ -120,8 +172,9 @@ Lemma upload_reflects_label w e :
   forall li data, In (CUpload li data) (snd (round w e)) ->
     li = last_index (w_db w) /\ reflects data (w_db (fst (fst (round w e)))) li.
 Proof.
-  intros (Hli & Hpr) Hch Hna li data. unfold changed in Hch.
-  unfold round. rewrite Hli, Hpr.
+  intros Hok Hch Hna li data. pose proof (fun db => provided_ok db e Hok) as HP. destruct Hok as (Hli & Hpr & Hgu).
+  unfold changed in Hch.
+  unfold round. rewrite Hli, HP.
   destruct (last_index (w_db w) <=? w_last w) eqn:Hle; [apply N.leb_le in Hle; lia|].
   cbn [set_db w_db w_last w_rid].
   destruct ((w_last w =? 0) && negb (e_id_err e) && opt_N_eqb (w_rid w) (last_index (w_db w))) eqn:Hid.
@@ -165,14 +218,15 @@ Lemma failed_upload_retried w e e2 li data :
   (snd (fst (round w' e2)) = OUploaded li2 (w_db w' ++ e_mid e2) \/
    (snd (fst (round w' e2)) = OSkippedID /\ w_rid w' = Some li2)).
 Proof.
-  intros Hs Hw Ho (Hli2 & Hpr2) Hup2. cbn [wf_ev] in Hw. cbv zeta.
+  intros Hs Hw Ho Hok2 Hup2. pose proof (fun db => provided_ok db e2 Hok2) as HP2. destruct Hok2 as (Hli2 & Hpr2 & Hgu2).
+  cbn [wf_ev] in Hw. cbv zeta.
   assert (Hw' : fst (fst (round w e)) = set_db w (w_db w ++ e_mid e) /\ li = last_index (w_db w) /\ w_last w < li).
   { revert Ho. unfold round. brk; cbn [fst snd]; try discriminate; intros H; inversion H; subst;
       repeat split; apply N.leb_gt; assumption. }
   destruct Hw' as (-> & -> & Hlt).
   cbn [set_db w_db].
   pose proof (last_index_grows _ _ Hw) as Hg. split; [exact Hg|].
-  unfold round. rewrite Hli2, Hpr2, Hup2. cbn [set_db w_db w_last w_rid w_rdata].
+  unfold round. rewrite Hli2, HP2, Hup2. cbn [set_db w_db w_last w_rid w_rdata].
   destruct (last_index (w_db w ++ e_mid e) <=? w_last w) eqn:Hle; [apply N.leb_le in Hle; lia|].
   destruct ((w_last w =? 0) && negb (e_id_err e2) && opt_N_eqb (w_rid w) (last_index (w_db w ++ e_mid e))) eqn:Hid.
   - right. split; [reflexivity|]. apply andb_true_iff in Hid as (_ & H3).
@@ -185,7 +239,8 @@ Lemma first_round_id_check w e :
   (snd (fst (round w e)) = OSkippedID <-> already_there w e) /\
   (w_last w <> 0 -> ~ In CCurID (snd (round w e))).
 Proof.
-  intros (Hli & Hpr) Hch. unfold changed in Hch. unfold round, already_there. rewrite Hli, Hpr.
+  intros Hok Hch. pose proof (fun db => provided_ok db e Hok) as HP. destruct Hok as (Hli & Hpr & Hgu).
+  unfold changed in Hch. unfold round, already_there. rewrite Hli, HP.
   destruct (last_index (w_db w) <=? w_last w) eqn:Hle; [apply N.leb_le in Hle; lia|].
   cbn [set_db w_db w_last w_rid].
   destruct (w_last w =? 0) eqn:H0; cbn [andb].
@@ -224,7 +279,8 @@ Proof.
   destruct (e_li_err e); [left; auto|].
   destruct (last_index (w_db w) <=? w_last w) eqn:Hle; [apply N.leb_le in Hle; left; auto|]. apply N.leb_gt in Hle.
   cbn [set_db w_db w_last w_rid].
-  destruct (e_prov_err e); [right; left; auto|].
+  destruct (provided (w_db w ++ e_mid e) e) as [data|] eqn:HP; [|right; left; auto].
+  apply provided_some in HP. subst data.
   destruct ((w_last w =? 0) && negb (e_id_err e) && opt_N_eqb (w_rid w) (last_index (w_db w))) eqn:Hid.
   - right; left. repeat split; auto. right. left. split; [reflexivity|].
     apply andb_true_iff in Hid as (Hid & H3). apply andb_true_iff in Hid as (H1 & H2).
@@ -347,7 +403,7 @@ Qed.
 Definition behind (w : world) : Prop :=
   (exists c, In c (w_db w) /\ ~ In c (w_rdata w)) \/ w_rsilent w <> w_silent w.
 
-Definition clean0 := {| e_li_err := false; e_mid := []; e_prov_err := false; e_id_err := false; e_up_fail := false |}.
+Definition clean0 := {| e_li_err := false; e_mid := []; e_prov_err := false; e_attempts := []; e_id_err := false; e_up_fail := false |}.
 
 (* write, successful upload, a change that fsmApply does not count, then any number of clean
    rounds: each of them skips, and the stored object stays behind the database *)
@@ -367,9 +423,9 @@ Qed.
 
 (* ---- concrete instances ---- *)
 
-Definition clean := {| e_li_err := false; e_mid := []; e_prov_err := false; e_id_err := false; e_up_fail := false |}.
-Definition racing := {| e_li_err := false; e_mid := [9; 11]; e_prov_err := false; e_id_err := false; e_up_fail := false |}.
-Definition failing := {| e_li_err := false; e_mid := []; e_prov_err := false; e_id_err := true; e_up_fail := true |}.
+Definition clean := {| e_li_err := false; e_mid := []; e_prov_err := false; e_attempts := []; e_id_err := false; e_up_fail := false |}.
+Definition racing := {| e_li_err := false; e_mid := [9; 11]; e_prov_err := false; e_attempts := []; e_id_err := false; e_up_fail := false |}.
+Definition failing := {| e_li_err := false; e_mid := []; e_prov_err := false; e_attempts := []; e_id_err := true; e_up_fail := true |}.
 
 Example ex_round_racing :
   round (fresh [3; 5] (Some 3) [3]) racing
